@@ -10,7 +10,7 @@ PROPS = ["Props/C06.v"] + (["Props/C06poll.v"] if os.path.exists(os.path.join(os
 THEOREMS = ["C06_never_worse_than_start", "C06_monotone_progress", "C06_always_stops", "C06_poll_descent"]
 LEVEL = "proof"
 RULE = ("(a) deterministic real runs compared with the skeleton model (premises det_ok evaluated per event) for the per-run clause; (b) the population clause is SAMPLED, never proved: "
-        "panel of random rotated quadratics (eigenvalues in [1,100], minimiser in [-4,4]^D, start uniform in the plausible box, D 1..5, default options) in three strata: standard (f* = 0, plausible box [-5,5]^D), offset (minimum VALUE +-2e3..2e4), wide (plausible box [-50,50]^D), each with its own threshold: quick 20 problems with a gross threshold "
+        "panel of random rotated quadratics (eigenvalues in [1,100], minimiser in [-4,4]^D, start uniform in the plausible box, D 1..5, default options) in three strata: standard (f* = 0, plausible box [-5,5]^D), offset (minimum VALUE +-2e3..2e4), wide (plausible box [-50,50]^D), unbounded (no hard bounds), huge (hard bounds +-1e15), each with its own threshold: quick 20 problems with a gross threshold "
         "(VIOLATION only if < 60% within 1e-3 or any run is worse than its start), thorough 70 problems with the property's thresholds (>= 90% within 1e-3; median evaluations-to-1e-2 <= 40*D)")
 TRUSTED = ["Coq 8.16.1 kernel + vm_compute", "hand-written model Model/Skeleton.v tied per loop iteration to real runs",
            "POPULATION CLAUSE OUTSIDE THE FAMILY: a statistical statement about gpyreg's hyper-parameter optimiser and the ES sampler; a passing panel is a sample, not the basis of 'holds'"]
@@ -23,7 +23,7 @@ def tie(ctx, broken):
     specs = [s for s in S.panel(ctx.tier, ctx.seed) if s["noise"] == "det"][:6]
     out = R.tie_skeleton(ctx, broken, [(s, None) for s in specs], "c06")
     R.apply_monitor(ctx, out, R.mon_c04)
-    n = 20 if ctx.quick else 80      # blocks of 5 (D = 1..5) cycling through the strata standard / offset / standard / wide
+    n = 30 if ctx.quick else 90      # blocks of 5 (D = 1..5) cycling through the strata standard / offset / standard / wide / unbounded / huge
     with ProcessPoolExecutor(max_workers=14) as ex:
         res = list(ex.map(Qp.run_one, [(i, ctx.seed) for i in range(n)]))
     ok3 = [r for r in res if r["fval"] is not None and r["fval"] <= 1e-3]
